@@ -408,6 +408,13 @@ def main(mod, argv):
     equiv = [t for g in equiv_groups for t in equiv_groups[g]]
     translator = None
     good_groups = []
+    equiv_lock = None
+    if equiv_groups:
+        # the generated files are shared by every check run from this /verif: regenerate -> build -> audit happen under one lock, so
+        # that checks running at the same time against DIFFERENT trees (VERIF_REPO) cannot see each other's kernels half-way
+        import fcntl
+        equiv_lock = open(os.path.join(LEAN_DIR, ".equiv.lock"), "w")
+        fcntl.flock(equiv_lock, fcntl.LOCK_EX)
     if equiv_groups:
         from harness import translate
         try:
@@ -474,6 +481,10 @@ def main(mod, argv):
                 else:
                     discharged += 1
     theorems = theorems + equiv
+    if equiv_lock is not None:
+        import fcntl
+        fcntl.flock(equiv_lock, fcntl.LOCK_UN)
+        equiv_lock.close()
     leancheck = None
     if ok and tier == "thorough":
         try:
